@@ -317,6 +317,18 @@ class Escape:
                     srcs.append(Source('UnicodeDecodeError', qn, n, 'codecs.decode() rejects escapes the escape regex admits (unknown \\N{name}, \\U above 10FFFF)'))
                 elif name == 'next':
                     srcs.append(Source('StopIteration', qn, n, 'next() on an exhausted iterator'))
+                elif isinstance(n.func, ast.Attribute) and n.func.attr == 'index' and 1 <= len(n.args) <= 3 and not n.keywords \
+                        and not self.is_mapping(qn, n.func.value):
+                    # str/list .index(x[, start]) raises ValueError when x is absent (unlike .find)
+                    recv, what = norm(n.func.value), norm(n.args[0])
+                    hay = f'{recv}[{norm(n.args[1])}:]' if len(n.args) >= 2 else recv
+                    pts = self.conds_before(qn, n)
+                    if pts and all(any(e.kind == 'cond' and ((norm(e.node) == f'{what} in {hay}' and e.val) or (norm(e.node) == f'{what} not in {hay}' and not e.val))
+                                       for e in p.events[:i + 1]) for p, i in pts):
+                        self.discharged.append(f'{qn}: `{short(n)}` total: `{what} in {hay}` holds on every path')
+                    else:
+                        srcs.append(Source('ValueError', qn, n, f'`{short(n)}` raises when {what} does not occur in `{hay}` (it is `.index`, not `.find`)',
+                                           not self.tested_everywhere(qn, n, [what + ' in', what + ' not in'])))
                 elif isinstance(n.func, ast.Attribute) and n.func.attr == 'encode' and n.args and isinstance(n.args[0], ast.Constant) \
                         and str(n.args[0].value).lower().replace('-', '').replace('_', '') not in ('utf8', 'utf16', 'utf32'):
                     wit = self.callback_regex_admits(qn, '\u20ac')
